@@ -465,4 +465,21 @@ Module DacTree.
     /\ snd (impl_run w_alice ahist) = snd (spec_run_phl true sw_alice ahist)
     /\ w_fs (fst (impl_run w_alice ahist)) = sw_fs (fst (spec_run_phl true sw_alice ahist)).
   Proof. vm_compute. repeat split; reflexivity. Qed.
+
+  (* ---- a directory moved into itself.  / is sticky and root's, /t is bob's: alice may write / but owns neither; the
+     answer is EINVAL on both sides, before the sticky bit (EPERM) is looked at, as rename(2) does (in the code the
+     moved directory is also the new parent, whose lock is held: the test of its owner must not be reached) --------- *)
+  Definition itree : heap :=
+    [ NDir [(n_t, 1)] (mk (N.lor MODE_DIR (N.lor MODE_STICKY 511)) 0 0)
+    ; NDir [] (mk (N.lor MODE_DIR 511) 1001 1000) ].
+  Definition ifs : fsys := {| f_heap := itree; f_last_id := 1; f_vols := [] |}.
+  Example rename_into_itself_first :
+    let o := abs_path [n_t] in
+    let p := abs_path ([n_t] ++ [n_g]) in
+    let q := abs_path [n_g] in
+    (fst (rename ifs (view_of alice 18) o p), proj_res Linux (snd (rename ifs (view_of alice 18) o p))) = go_rename ifs (svu alice 18) o p
+    /\ snd (go_rename ifs (svu alice 18) o p) = SErr EINVAL
+    /\ (fst (rename ifs (view_of alice 18) o q), proj_res Linux (snd (rename ifs (view_of alice 18) o q))) = go_rename ifs (svu alice 18) o q
+    /\ snd (go_rename ifs (svu alice 18) o q) = SErr EPERM.
+  Proof. repeat split; vm_compute; reflexivity. Qed.
 End DacTree.
